@@ -192,7 +192,8 @@ DoGroupSign ==
     /\ LET g == GskDec(e.gsk)
            sg == SigDec(e.sig)
            pk == GMul(s, g.sk, GBase(s))
-       IN Step(g.ok /\ sg.ok /\ SigOk(s, PtEnc(s, pk), pk, sg.R, sg.z, e.msg))
+       IN Step(/\ g.ok /\ sg.ok /\ SigOk(s, PtEnc(s, pk), pk, sg.R, sg.z, e.msg)
+               /\ (Has("again") => e.again = e.sig))          \* the seeded variant is deterministic
 
 Next == \/ DoInit \/ DoCodec \/ DoSplit \/ DoVerifySplit \/ DoSignerKey \/ DoDerive
         \/ DoCommit \/ DoChoose \/ DoSign \/ DoVerifyShare \/ DoAssemble
